@@ -88,6 +88,9 @@ def r_choice_encoding(rule, root=None):
             rule.bad("encoding|const|%s" % n_, "%s is `%s`; it must be Choice::%s" % (n_, t_, v_), "fidget-jit/src/lib.rs")
 
 
+POSZERO = sp.Function("poszero")  # 1 for the bit pattern of +0.0, 0 for everything else (-0.0 included)
+
+
 class BM:
     """a lane holding a compare mask: all ones where `c` holds, zero elsewhere"""
 
@@ -155,6 +158,9 @@ class PEmu(XS.Emu):
         if f[0] == "m":
             c = f[1]
             return {"p": c, "np": sp.Not(c)}.get(cc)
+        if f[0] == "z":
+            z = sp.Eq(POSZERO(f[1]), 1)
+            return {"e": z, "z": z, "ne": sp.Not(z), "nz": sp.Not(z)}.get(cc)
         _k, a, b = f
         if cc == "p":
             return sp.false
@@ -187,6 +193,13 @@ class PEmu(XS.Emu):
                 return
             self.flags = ("f", _real(a), _real(b))
             return
+        if m == "test" and len(ops) == 2 and ops[0].kind == "gpr" and ops[1].kind == "gpr" and ops[0].name == ops[1].name:
+            val = self.g.get(ops[0].name)
+            rv = _real(val) if not isinstance(val, (IntV, BM)) else None
+            if rv is not None:
+                # ZF iff every bit is clear: +0.0 and nothing else (not -0.0)
+                self.flags = ("z", rv)
+                return
         if e.kind in ("cmp",):
             self.flags = None  # integer compare / test: not modelled
             return
@@ -399,7 +412,8 @@ def summarise(ins, assign, imm_const=None, lets=None):
 # ---------------------------------------------------------------------------------------------------------------
 # deciding over order types
 
-_MODS = [{"Min": min, "Max": max, "Abs": abs, "sqrt": lambda v: math.sqrt(v)}, "math"]
+_MODS = [{"Min": min, "Max": max, "Abs": abs, "sqrt": lambda v: math.sqrt(v),
+          "poszero": lambda v: 1 if (v == 0 and math.copysign(1.0, float(v)) > 0) else 0}, "math"]
 
 
 def _fn(syms, expr):
